@@ -257,6 +257,98 @@ def failing_theorems(build_out):
     return errs[:20]
 
 
+class ImplCoverage:
+    """line coverage of the package under /repo while a check's correspondences and oracles run in this process
+    (sys.monitoring, Python >= 3.12; child processes are not seen).  Reported per anchored function, so the evidence
+    says where the tie between model and code was exercised by this run and where it was not."""
+
+    def __init__(self, root):
+        self.root = os.path.abspath(root) + os.sep
+        self.hits = {}
+        self.mon = getattr(sys, "monitoring", None)
+        self.active = False
+
+    def start(self):
+        if self.mon is None:
+            return
+        try:
+            self.mon.use_tool_id(self.mon.COVERAGE_ID, "verif")
+        except Exception:  # noqa
+            return
+        hits = self.hits
+        root = self.root
+        disable = self.mon.DISABLE
+
+        def on_line(code, line):
+            fn = code.co_filename
+            if fn.startswith(root):
+                hits.setdefault(fn, set()).add(line)
+            return disable
+        self.mon.register_callback(self.mon.COVERAGE_ID, self.mon.events.LINE, on_line)
+        self.mon.set_events(self.mon.COVERAGE_ID, self.mon.events.LINE)
+        self.active = True
+
+    def stop(self):
+        if self.active:
+            self.mon.set_events(self.mon.COVERAGE_ID, 0)
+            self.mon.register_callback(self.mon.COVERAGE_ID, self.mon.events.LINE, None)
+            self.mon.free_tool_id(self.mon.COVERAGE_ID)
+            self.active = False
+
+    @staticmethod
+    def _functions(path):
+        """qualified name -> set of lines that carry code, from the compiled module"""
+        out = {}
+        src = open(path, encoding="utf-8").read()
+        top = compile(src, path, "exec")
+
+        def walk(code, prefix):
+            for c in code.co_consts:
+                if hasattr(c, "co_code"):
+                    q = (prefix + "." if prefix else "") + c.co_name
+                    if c.co_name.startswith("<") and c.co_name != "<lambda>":
+                        walk(c, prefix)
+                        continue
+                    lines = {l for _, _, l in c.co_lines() if l is not None and l != c.co_firstlineno}
+                    if lines:
+                        out.setdefault(q, set()).update(lines)
+                    walk(c, q)
+        walk(top, "")
+        return out
+
+    def report(self, anchors):
+        if self.mon is None:
+            return {"available": False}
+        per = {}
+        tot = cov = 0
+        for a in anchors:
+            fname = a.split(":", 1)[0]
+            want = a.split(":", 1)[1] if ":" in a else ""
+            cands = [os.path.join(self.root, fname), os.path.join(self.root, "_ply", fname)]
+            path = next((c for c in cands if os.path.exists(c)), None)
+            if path is None:
+                continue
+            fns = self._functions(path)
+            hit = self.hits.get(path, set())
+            for q, lines in fns.items():
+                if "<attrs>" in want or (want and not (q == want or q.startswith(want + "."))):
+                    continue
+                key = fname + ":" + q
+                if key in per:
+                    continue
+                c = len(lines & hit)
+                per[key] = (c, len(lines))
+                tot += len(lines)
+                cov += c
+        untouched = sorted(k for k, (c, n) in per.items() if c == 0)
+        partial = sorted(((k, c, n) for k, (c, n) in per.items() if 0 < c < n), key=lambda x: x[1] / x[2])
+        return {"available": True, "anchored_functions": len(per), "lines": tot, "lines_executed": cov,
+                "percent": round(100.0 * cov / tot, 1) if tot else None,
+                "functions_never_entered": untouched[:60], "n_never_entered": len(untouched),
+                "least_covered": [{"function": k, "executed": c, "of": n} for k, c, n in partial[:12]],
+                "note": "in-process runs only; lines of the anchored functions executed by this run's correspondences and oracles"}
+
+
 def main(argv):
     if len(argv) < 3:
         print(__doc__)
@@ -317,9 +409,19 @@ def main(argv):
     findings = [f for f in load_known_findings().get("findings", []) if f.get("property") == pid]
     ctx.findings = findings
 
-    # 3 + 4. correspondences and oracle search
+    # 3 + 4. correspondences and oracle search (with line coverage of the implementation: which of the anchored
+    # functions the inputs of this run actually exercised)
+    implcov = ImplCoverage(os.path.join(common.REPO, "cxxheaderparser"))
+    implcov.start()
     try:
-        mod.run(ctx)
+        try:
+            mod.run(ctx)
+        finally:
+            implcov.stop()
+            try:
+                ctx.extra["implementation_line_coverage"] = implcov.report(anchors)
+            except Exception as e:  # noqa
+                ctx.extra["implementation_line_coverage"] = {"error": repr(e)}
     except MachineryError:
         raise
     except subprocess.TimeoutExpired as e:
